@@ -16,6 +16,9 @@ class SgzCropper(SgzReader):
         super().__init__(file, filetype_checking, preload, chunk_cache_size)
 
     def check_and_correct_bounds(self, iline_index_range, xline_index_range, zslices_index_range):
+        if not self.structured:
+            raise IndexError("Cropping of 2D and irregular files is not supported, no file will be written.")
+
         valid_bounds = True
         if iline_index_range is None and xline_index_range is None and zslices_index_range is None:
             print("Error: No cropping ranges specified, no file will be written.")
